@@ -72,6 +72,8 @@ class ScriptGen:
             choices.append((1, "multisig"))
         if "CONST_SCRIPTCODE" in self.flags_off:
             choices.append((2, "codesep"))
+        if "MINIMALDATA" in self.flags_off:
+            choices.append((3, "oddpush"))
         k = r.weighted(choices)
         getattr(self, "s_" + k)()
 
@@ -253,12 +255,36 @@ class ScriptGen:
             self.emit(r.range(0, 1000), r.range(0, 8), op)
             self.st.append("n")
 
+    def odd_push(self):
+        """push forms a compiler would not emit: explicit PUSHDATA1/2/4 (also with zero length), boundary lengths"""
+        r = self.r
+        ln = r.choice([0, 1, 2, 75, 76, 77, 255, 256, 257, 519, 520])
+        data = r.bytes(ln)
+        form = r.weighted([(3, 0x4c), (3, 0x4d), (2, 0x4e), (3, 0)])
+        if form == 0x4c and ln <= 255:
+            raw = bytes([0x4c, ln]) + data
+        elif form == 0x4d:
+            raw = bytes([0x4d, ln & 0xff, ln >> 8]) + data
+        elif form == 0x4e:
+            raw = bytes([0x4e]) + ln.to_bytes(4, "little") + data
+        else:
+            raw = S.push(data)
+        return "raw:" + raw.hex()
+
+    def s_oddpush(self):
+        self.emit(self.odd_push())
+        self.st.append("d")
+        self.features.add("oddpush")
+
     def dead_code(self, n):
         """tokens for a branch that is not executed: anything that decodes,
         except ops that fail even when skipped"""
         r = self.r
         out = []
         for _ in range(n):
+            if r.chance(12):
+                out.append(self.odd_push())
+                continue
             k = r.below(6)
             if k == 0:
                 out.append(r.range(-5, 300))
